@@ -179,7 +179,22 @@ func init() {
 						}
 						mayNil := false
 						for _, res := range ret.Results {
-							if isErrorType(res.Type()) && mayBeNilErrorAt(resolveLoad(res), b, map[ssa.Value]bool{}) {
+							if !isErrorType(res.Type()) {
+								continue
+							}
+							rv := resolveLoad(res)
+							// `return n, bw.Flush()` / `err = bw.Flush(); return n, err`:
+							// the Flush error itself is what the caller is handed
+							isFlush := false
+							for _, fl := range flushes {
+								if rv == ssa.Value(fl) {
+									isFlush = true
+								}
+							}
+							if isFlush {
+								continue
+							}
+							if mayBeNilErrorAt(rv, b, map[ssa.Value]bool{}) {
 								mayNil = true
 							}
 						}
